@@ -21,7 +21,7 @@ from jax2onnx.converter.typing_support import LoweringContextProtocol
 from jax2onnx.plugins.jax._autodiff_utils import register_jvp_via_jax_jvp
 from jax2onnx.plugins._patching import AssignSpec, MonkeyPatchSpec
 from jax2onnx.plugins._post_check_onnx_graph import expect_graph as EG
-from jax2onnx.plugins.jax.nn._builder_utils import register_unary_elementwise_batch_rule
+from jax.interpreters import batching
 from jax2onnx.plugins.plugin_system import PrimitiveLeafPlugin, register_primitive
 
 
@@ -237,7 +237,24 @@ def _standardize_impl(
     return orig(x, axis=axis, mean=None, variance=None, epsilon=epsilon, where=None)
 
 
-register_unary_elementwise_batch_rule(StandardizePlugin._PRIM)
+def _standardize_batch_rule(
+    batched_args: tuple[ArrayLike, ...],
+    batch_dims: tuple[object, ...],
+    *,
+    axis: tuple[int, ...] | None = None,
+    epsilon: float = 0.0,
+) -> tuple[ArrayLike, object]:
+    """standardize reduces over ``axis``: those axes refer to the unbatched operand."""
+    (x,), (bd,) = batched_args, batch_dims
+    if bd is batching.not_mapped:
+        return StandardizePlugin._PRIM.bind(x, axis=axis, epsilon=epsilon), bd
+    x = jnp.moveaxis(jnp.asarray(x), cast(int, bd), 0)
+    axes = _normalize_axes(axis, x.ndim - 1)
+    shifted = tuple(a + 1 for a in axes)
+    return StandardizePlugin._PRIM.bind(x, axis=shifted, epsilon=epsilon), 0
+
+
+batching.primitive_batchers[StandardizePlugin._PRIM] = _standardize_batch_rule
 
 
 register_jvp_via_jax_jvp(StandardizePlugin._PRIM, _standardize_impl)
